@@ -68,6 +68,8 @@ pub struct Entry {
     pub enc: fn(&Val, &[Sink]) -> Vec<EncRun>,
     pub dec: fn(&[u8]) -> DecRun,
     pub dec_ctx: fn(&[u8]) -> DecRun,
+    /// decode and drop the value without converting it (huge zero-width containers)
+    pub dec_discard: fn(&[u8]) -> DecRun,
     /// serialize the elements as a slice `&[T]` (only for `Vec<T>` rows with `T: 'static`)
     pub enc_slice: Option<fn(&Val) -> EncRun>,
     /// derived declaration (vs. built-in type expression)
@@ -171,6 +173,11 @@ pub fn dec<T: Bridge>(b: &[u8]) -> DecRun {
     DecRun { out: o.map(|x| x.to_val()), max_alloc: m, rest: None }
 }
 
+pub fn dec_discard<T: Bridge>(b: &[u8]) -> DecRun {
+    let (o, m) = guarded(|| desert::deserialize::<T>(b));
+    DecRun { out: o.map(|_| refmodel::Val::Unit), max_alloc: m, rest: None }
+}
+
 /// drain what is still readable from the context through its public `BinaryInput` impl
 pub fn drain(ctx: &mut DeserializationContext<'_>) -> Vec<u8> {
     let mut rest = Vec::new();
@@ -194,6 +201,7 @@ pub fn entry<T: Bridge>(name: &str) -> Entry {
         enc: enc::<T>,
         dec: dec::<T>,
         dec_ctx: dec_ctx::<T>,
+        dec_discard: dec_discard::<T>,
         enc_slice: None,
         derived: false,
         tags: vec![],
